@@ -1,0 +1,7 @@
+//go:build !verif
+
+package lib
+
+// verifPoint marks an atomic step of Task for the verification harness (build tag "verif").
+// Without the tag it is an empty function that the compiler removes.
+func verifPoint(s *Task, name string) {}
